@@ -1,0 +1,19 @@
+//go:build verif
+// +build verif
+
+package core
+
+import (
+	"com.tuntun.rangers/node/src/common"
+	"com.tuntun.rangers/node/src/middleware/types"
+	"com.tuntun.rangers/node/src/storage/account"
+)
+
+// VerifC01ExecuteBlockWithChain is newVMExecutor(accountdb, block, situation).Execute() with the
+// executor context's "chain" entry (what BLOCKHASH and the miner executors ask for block hashes) replaced
+// by the supplied value, as the node does itself for situation "fork" (build tag verif only, add-only).
+func VerifC01ExecuteBlockWithChain(accountdb *account.AccountDB, block *types.Block, situation string, chain interface{}) (common.Hash, []common.Hash, []*types.Transaction, []*types.Receipt) {
+	vm := newVMExecutor(accountdb, block, situation)
+	vm.context["chain"] = chain
+	return vm.Execute()
+}
